@@ -3,7 +3,7 @@
 
 Copy /repo/src and put std's synchronisation primitives behind the simulator's seam at the
 SOURCE level: std::sync::atomic, std::sync::{Mutex, RwLock, Condvar, Barrier, Once, mpsc},
-std::thread and thread_local! become shuttle's. Every access to such a primitive is then a
+and std::thread become shuttle's (thread_local! stays std's, see below). Every access to such a primitive is then a
 scheduling point the simulator owns, wherever in the crate it is (hook H1 covers only the three
 planner files and only their existing imports). Nothing else is touched; the copy is rebuilt from
 the current working tree on every check.
@@ -52,8 +52,10 @@ for root, _, files in ([] if plain else os.walk(out)):
         s = re.sub(r'\bstd::sync::(atomic|Mutex|MutexGuard|RwLock|RwLockReadGuard|RwLockWriteGuard|Condvar|Barrier|Once\b|mpsc)', r'shuttle::sync::\1', s)
         s = re.sub(r'\bstd::thread::(spawn|scope|sleep|yield_now|current|park|JoinHandle|Builder|ThreadId)\b', r'shuttle::thread::\1', s)
         s = re.sub(r'(?m)^(\s*)use std::thread;', r'\1use shuttle::thread;', s)
-        s = re.sub(r'(?<![:\w])thread_local!', 'shuttle::thread_local!', s)
-        s = re.sub(r'\bstd::shuttle::thread_local!', 'shuttle::thread_local!', s)
+        # thread_local! is deliberately NOT rewritten: all simulated tasks of a shard run on one OS
+        # thread, so std's thread-locals behave as they do for a caller that does everything from
+        # one thread (rayon, too, re-enters a worker while it waits on nested work): state kept in
+        # them survives from call to call, which is exactly what history-dependent defects need.
         if s != o:
             open(p, 'w').write(s)
             n_files += 1
